@@ -89,7 +89,9 @@ def put_license_in_file(
     destination = Path(destination)
     destination.parent.mkdir(exist_ok=True)
 
-    if destination.exists():
+    # exists() follows symbolic links: a dangling link is an existing entry as
+    # well, and writing to it would create its target somewhere else.
+    if destination.exists() or destination.is_symlink():
         raise FileExistsError(
             errno.EEXIST, os.strerror(errno.EEXIST), str(destination)
         )
